@@ -49,7 +49,8 @@ def solve_for_scalar(f: Basic, symbol: Basic, **flags: Any) -> list[Eq]:
 
     flags["dict"] = True
     solution = sym_solve(f, symbol, **flags)[0]
-    return [Eq(lhs, rhs) for lhs, rhs in solution.items()]
+    # NOTE: do not evaluate, otherwise a solution that contradicts the assumptions of `symbol` collapses to `False`
+    return [Eq(lhs, rhs, evaluate=False) for lhs, rhs in solution.items()]
 
 
 def vector_equals(lhs: Expr, rhs: Expr) -> bool:
